@@ -29,11 +29,23 @@ pub fn run(tier: &str) -> i32 {
             (2, 255, 2, 600, None),
         ]
     };
-    for (theta, p, dev, depth, budget) in parts {
+    // (theta, follow_ups, max_deviations, max_depth, hb_budget, wide pool)
+    let parts: Vec<(u32, usize, usize, usize, Option<u64>, bool)> = {
+        let mut v: Vec<_> = parts.into_iter().map(|(a, b, c, d, e)| (a, b, c, d, e, false)).collect();
+        if quick {
+            v.push((2, 1, 3, 60, None, true));
+        } else {
+            v.push((2, 2, 5, 80, None, true));
+            v.push((1, 1, 5, 80, Some(2), true));
+            v.push((3, 0, 6, 80, None, true));
+        }
+        v
+    };
+    for (theta, p, dev, depth, budget, wide) in parts {
         let m = SchedModel {
             net: Network::Regtest,
             theta,
-            pool: Pool::standard(Network::Regtest, p),
+            pool: if wide { Pool::wide(Network::Regtest, p) } else { Pool::standard(Network::Regtest, p) },
             max_deviations: dev,
             max_depth: depth,
             hb_budget: budget,
@@ -41,12 +53,13 @@ pub fn run(tier: &str) -> i32 {
             liveness: p < 100,
             upgrade_transparency: false,
         };
-        let e = explore(&m, &Limits::new(3, if quick { 55 } else { 6000 }));
+        let e = explore(&m, &Limits::new(3, if quick { 300 } else { 6000 }));
         rep.absorb(
-            &format!("SCHED theta={} follow_ups={} deviations<={} depth<={} hb_budget={:?}", theta, p, dev, depth, budget),
+            &format!("SCHED theta={} follow_ups={} deviations<={} depth<={} hb_budget={:?} pool={}", theta, p, dev, depth, budget, if wide { "wide" } else { "standard" }),
             e,
             json!({"threshold": theta, "follow_up_pages": p, "max_deviations": dev, "max_depth": depth,
-                   "heartbeat_ingestion_budget": budget, "pool": "G-P1-P2-P3 + fork F on P1, P2 paginated"}),
+                   "heartbeat_ingestion_budget": budget,
+                   "pool": if wide { "G-A1-A2 and G-B1-B2-B3, B2 paginated, one block per reply" } else { "G-P1-P2-P3 + fork F on P1, P2 paginated, two blocks per reply" }}),
         );
     }
     rep.rule = "all schedules of {start a heartbeat, deliver normal/reject/empty reply to a parked heartbeat, upgrade} with at most d deviations from the sequential schedule (a heartbeat while a request is outstanding, a reject, an empty reply, an upgrade each cost one), over a source holding a 4-block pool with one block split into 1+p pages; states merged on the complete logical state + parked requests + source cursor + deviations used; from every state a fault-free suffix must sync the pool".into();
